@@ -5,8 +5,17 @@
                 g graph in bytes, mode, res / rec what the real code did, scan = the <<data, size>> headers met
                 by a linear scan of the emitted bytes, walk = <<node, at, data read, size read, offsets read>> of
                 a walk that follows the offsets READ FROM THE BYTES along the original tree.
-   (further kinds are added below)                                                                    *)
-EXTENDS TraceIO, OTLGraph
+   k = "split"  (R) one (lookup list, overflow record) state exported by MC_OTLRepack, realised as real otTables
+                objects; the real tryResolveOverflow (fixSubTableOverFlows / split* / fixLookupOverFlows) was
+                called on it: lk / rec / sem = the exported summary, record and meaning (OTLSem layout),
+                before / after = harness/otl_project.py projections of the real objects before and after the
+                call, sumafter = structural summary afterwards, ok / crash = what the call returned / raised.
+   k = "e2e"    (V) one font: M = projection of the in-memory tables before compile, runs = one entry per distinct
+                compiled result (modes = the (repacker mode, compaction level) pairs that produced these bytes,
+                err, P = projection of the tables decompiled from the bytes (sameM: P is M), hb = HarfBuzz on the
+                bytes: per config and probe sequence <<>> (unchanged) or <<glyphs, adjustments>>), probes = probe
+                sequences per lookup, seqs / cfgs = what HarfBuzz shaped, orig = HarfBuzz on the original file.   *)
+EXTENDS TraceIO, OTLGraph, OTLResolve, OTLSem
 
 VARIABLES tid, verdict
 vars == <<tid, verdict>>
@@ -35,11 +44,111 @@ JPack(t) ==
      ELSE IF t.walk # ExpWalk(G, P, 1, 1) THEN "pack:positions-differ"
      ELSE LET c == PackClause(G, 1, P) IN IF c = "ok" THEN "ok" ELSE "pack:" \o c
 
-Judge(t) ==
-  CASE t.k = "pack" -> JPack(t)
-    [] OTHER -> "unknown-kind"
+-----------------------------------------------------------------------------
+(* (R) the resolution functions on small real tables *)
+SmallProbes == {<<a>> : a \in 1..12} \cup {<<a, b>> : a \in 1..12, b \in 1..12}
+                 \cup {<<a, 9, 9>> : a \in 1..8} \cup {<<a, 9, 10>> : a \in 1..3} \cup {<<a, 10, 11>> : a \in 1..3}
+DenoteAll(L, S) == <<[i \in 1..Len(L.gsub.lookups) |-> <<DenoteSub(L, i, S),
+                                                         [q \in {<<4>>, <<5>>, <<8>>} |-> ApplyLookup(L.gsub.lookups, L.gdef, i, [b |-> q, ps |-> <<>>], 2).b]>>],
+                     [i \in 1..Len(L.gpos.lookups) |-> DenotePos(L, i, S)]>>
+JSplit(t) ==
+  LET r == TryResolve(t.lk, t.rec)
+      d0 == DenoteAll(t.before, SmallProbes)
+  IN IF ~Matches(t.lk, t.sumbefore) THEN "machinery:realised-tables-do-not-have-the-exported-structure"
+     ELSE IF d0 # DenoteAll(t.sem, SmallProbes) THEN "machinery:realised-tables-do-not-mean-what-the-specification-exported"
+     ELSE IF t.crash # "" THEN (IF r.crash THEN "ok" ELSE "resolve:unexpected-exception")
+     ELSE IF DenoteAll(t.after, SmallProbes) # d0 THEN "DenotationPreserved:" \o r.how
+     ELSE IF r.crash THEN "resolve:specification-expects-an-exception"
+     ELSE IF t.ok # r.ok THEN "resolve:ok-differs-from-specification:" \o r.how
+     ELSE IF ~Matches(r.lk, t.sumafter) THEN "resolve:result-differs-from-specification:" \o r.how
+     ELSE "ok"
 
-Init == tid \in 1..NTraces /\ verdict = "pending"
-Next == verdict = "pending" /\ verdict' = Judge(Traces[tid]) /\ UNCHANGED tid
-Report == (verdict \notin {"pending", "ok"}) => Reject(tid, verdict)
+-----------------------------------------------------------------------------
+(* (V) end to end *)
+SeqSet(s) == {s[k] : k \in 1..Len(s)}
+LayoutOf(t, r) == IF r.sameM THEN t.M ELSE r.P
+LookupHead(lk) == <<lk.ty, lk.flag, lk.mfs>>
+StructClause(M, P) ==
+  IF M.gdef # P.gdef THEN "structure:GDEF-differs"
+  ELSE IF Len(M.gsub.lookups) # Len(P.gsub.lookups) \/ Len(M.gpos.lookups) # Len(P.gpos.lookups) THEN "structure:number-of-lookups-differs"
+  ELSE IF M.gsub.fl # P.gsub.fl \/ M.gpos.fl # P.gpos.fl THEN "structure:script-or-feature-list-differs"
+  ELSE IF \E i \in 1..Len(M.gsub.lookups) : LookupHead(M.gsub.lookups[i]) # LookupHead(P.gsub.lookups[i]) THEN "structure:GSUB-lookup-type-or-flag-differs"
+  ELSE IF \E i \in 1..Len(M.gpos.lookups) : LookupHead(M.gpos.lookups[i]) # LookupHead(P.gpos.lookups[i]) THEN "structure:GPOS-lookup-type-or-flag-differs"
+  ELSE "ok"
+DenoteClause(M, P, probes) ==
+  IF \E i \in 1..Len(M.gsub.lookups) : LET S == SeqSet(probes.gsub[i]) IN DenoteSub(M, i, S) # DenoteSub(P, i, S)
+  THEN "DenotationPreserved:GSUB-lookup-shapes-differently-after-compile"
+  ELSE IF \E i \in 1..Len(M.gpos.lookups) : LET S == SeqSet(probes.gpos[i]) IN DenotePos(M, i, S) # DenotePos(P, i, S)
+  THEN "DenotationPreserved:GPOS-lookup-shapes-differently-after-compile"
+  ELSE "ok"
+
+(* HarfBuzz is plain OpenType for a probe when the script is present or DFLT is (no 'latn' fallback) and, without
+   GDEF glyph classes, no lookup ignores bases or ligatures (HarfBuzz then invents classes) -- as in Trace_C11 *)
+PlainScript(tb, sc) == ScriptsOf(tb) = {} \/ sc \in ScriptsOf(tb) \/ "DFLT" \in ScriptsOf(tb)
+PlainFlags(L) == Len(L.gdef.cls) > 0 \/ \A x \in 1..2 : LET tb == IF x = 1 THEN L.gsub ELSE L.gpos IN
+                    \A i \in 1..Len(tb.lookups) : ~Bit(tb.lookups[i].flag, 2) /\ ~Bit(tb.lookups[i].flag, 4)
+Plain(L, cfg) == PlainScript(L.gsub, cfg[1]) /\ PlainScript(L.gpos, cfg[1]) /\ PlainFlags(L)
+Sparse(out) ==
+  <<[i \in 1..Len(out) |-> out[i][1]],
+    SelectSeq([i \in 1..Len(out) |-> <<i, out[i][2], out[i][3], out[i][4], out[i][5]>>],
+              LAMBDA e : e[2] # 0 \/ e[3] # 0 \/ e[4] # 0 \/ e[5] # 0)>>
+ObsOf(t, h, c, k) == IF h[c][k] = <<>> THEN <<t.seqs[k], <<>>>> ELSE h[c][k]
+ExpHB(L, cfg, q) == Sparse(Shape(L, cfg[1], cfg[2], cfg[3], 1, "hb", q))
+Shaped(t) == {i \in 1..Len(t.runs) : t.runs[i].err = "" /\ Len(t.runs[i].hb) > 0}
+CK(t) == {ck \in (1..Len(t.cfgs)) \X (1..Len(t.seqs)) : TRUE}
+InUniverse(obs) == \A j \in 1..Len(obs[1]) : obs[1][j] # 0
+(* per probe: "ok", "gap" (OTLSem on BOTH the in-memory and the decompiled tables disagrees with HarfBuzz in the same
+   way: a shaper convention outside OTLSem, counted, not a verdict), "skip" (not plain / outside the universe), "bad" *)
+HBProbe(t, i, ck) ==
+  LET cfg == t.cfgs[ck[1]]
+      q == t.seqs[ck[2]]
+      obs == ObsOf(t, t.runs[i].hb, ck[1], ck[2])
+  IN IF ~Plain(t.M, cfg) \/ ~InUniverse(obs) THEN "skip"
+     ELSE LET em == ExpHB(t.M, cfg, q) IN
+          IF em = obs THEN "ok"
+          ELSE IF t.runs[i].sameM THEN "gap"
+          ELSE IF ExpHB(t.runs[i].P, cfg, q) = em THEN "gap" ELSE "bad"
+(* <<clause, probes where OTLSem(in-memory) = HarfBuzz, gaps, skipped>>.  All shaped runs must show the same
+   observations (and the original file's), so the probes are classified once, on the first shaped run f; a
+   probe that is a gap there is still "bad" for another run whose own decompiled tables disagree with M *)
+HBJudge(t) ==
+  LET R == Shaped(t) IN
+  IF R = {} THEN <<"ok", 0, 0, 0>>
+  ELSE LET f == CHOOSE i \in R : \A j \in R : i <= j IN
+       IF \E i \in R : \E ck \in CK(t) : ObsOf(t, t.runs[i].hb, ck[1], ck[2]) # ObsOf(t, t.runs[f].hb, ck[1], ck[2])
+       THEN <<"shape:harfbuzz-shapes-differently-on-differently-serialised-tables", 0, 0, 0>>
+       ELSE IF Len(t.orig) > 0 /\ \E ck \in CK(t) : ObsOf(t, t.orig, ck[1], ck[2]) # ObsOf(t, t.runs[f].hb, ck[1], ck[2])
+       THEN <<"shape:harfbuzz-shapes-differently-on-the-original-file", 0, 0, 0>>
+       ELSE LET v == [ck \in CK(t) |-> HBProbe(t, f, ck)]
+                gaps == {ck \in CK(t) : v[ck] = "gap"}
+                bad == \/ \E ck \in CK(t) : v[ck] = "bad"
+                       \/ \E i \in R \ {f} : ~t.runs[i].sameM /\ \E ck \in gaps : HBProbe(t, i, ck) = "bad"
+            IN <<IF bad THEN "shape:harfbuzz-on-compiled-bytes-differs-from-in-memory-tables" ELSE "ok",
+                 Cardinality({ck \in CK(t) : v[ck] = "ok"}), Cardinality(gaps), Cardinality({ck \in CK(t) : v[ck] = "skip"})>>
+
+RunClause(t, r) ==
+  IF t.packable = "no"
+  THEN (IF r.err = "" THEN "NoSilentWrap:table-returned-although-no-valid-packing-exists" ELSE "ok")
+  ELSE IF r.err = "" /\ ~r.decompiled THEN "EdgesResolve:compiled-table-cannot-be-decompiled"
+  ELSE IF r.err # "" THEN "ok"                              \* an error was raised: judged by Trace_C06_Loop
+  ELSE LET P == LayoutOf(t, r) IN
+       IF r.sameM THEN "ok"
+       ELSE LET s == StructClause(t.M, P) IN
+            IF s # "ok" THEN s ELSE DenoteClause(t.M, P, t.probes)
+JE2E(t) ==
+  LET bad == {i \in 1..Len(t.runs) : RunClause(t, t.runs[i]) # "ok"}
+  IN IF bad # {} THEN [c |-> RunClause(t, t.runs[CHOOSE i \in bad : \A j \in bad : i <= j]), s |-> <<>>]
+     ELSE LET h == HBJudge(t) IN [c |-> h[1], s |-> <<h[2], h[3], h[4]>>]
+
+Judge(t) ==
+  CASE t.k = "pack" -> [c |-> JPack(t), s |-> <<>>]
+    [] t.k = "split" -> [c |-> JSplit(t), s |-> <<>>]
+    [] t.k = "e2e" -> JE2E(t)
+    [] OTHER -> [c |-> "unknown-kind", s |-> <<>>]
+
+Pending == [c |-> "pending", s |-> <<>>]
+Init == tid \in 1..NTraces /\ verdict = Pending
+Next == verdict = Pending /\ verdict' = Judge(Traces[tid]) /\ UNCHANGED tid
+Report == /\ (verdict.c \notin {"pending", "ok"}) => Reject(tid, verdict.c)
+          /\ (verdict.c = "ok" /\ verdict.s # <<>>) => PrintT(<<"HBS", tid, verdict.s>>)
 =============================================================================
